@@ -63,6 +63,14 @@ type c09walker struct {
 	bufsize  map[string]uint64
 	stack    map[string]bool
 	inGo     int
+	goRets   map[ast.Node]bool // return statements directly in the body of a function literal started with `go`
+}
+
+func (w *c09walker) goPre() string {
+	if w.inGo > 0 {
+		return "go "
+	}
+	return ""
 }
 
 func (w *c09walker) render(e ast.Expr, env c09env) string {
@@ -148,6 +156,12 @@ func (w *c09walker) walk(node ast.Node, env c09env, depth int) {
 					lhs0 = id.Name
 				}
 				switch r := v.Rhs[0].(type) {
+				case *ast.TypeAssertExpr:
+					// `cw, ok := out.(interface{ CloseWrite() error })`: the same connection under another type
+					if rr := w.role(r.X, env); rr != "other" && lhs0 != "" {
+						env[lhs0] = rr
+						return false
+					}
 				case *ast.FuncLit:
 					if lhs0 != "" { // a local closure: walked where it is called / started
 						w.closures[lhs0] = r
@@ -199,6 +213,27 @@ func (w *c09walker) walk(node ast.Node, env c09env, depth int) {
 			if v.Op == token.ARROW && w.role(v.X, env) == "errc" {
 				w.recvs++
 				w.events = append(w.events, "recv")
+			}
+			if c, ok := v.X.(*ast.CallExpr); ok && v.Op == token.ARROW {
+				// `<-conn.Done()`: blocks until that connection is closed
+				if recv, name := c09Callee(c); recv != nil && name == "Done" && w.role(recv, env) != "other" {
+					w.events = append(w.events, w.goPre()+"wait("+w.role(recv, env)+".Done)")
+					return false
+				}
+			}
+		case *ast.SendStmt:
+			if w.role(v.Chan, env) == "errc" { // a copy direction reports its end
+				w.walk(v.Value, env, depth)
+				w.events = append(w.events, w.goPre()+"send")
+				return false
+			}
+		case *ast.ReturnStmt:
+			if w.goRets[v] { // a started goroutine ends without reporting
+				for _, r := range v.Results {
+					w.walk(r, env, depth)
+				}
+				w.events = append(w.events, "go return")
+				return false
 			}
 		case *ast.CallExpr:
 			return w.call(v, env, depth, false)
@@ -269,6 +304,17 @@ func (w *c09walker) call(c *ast.CallExpr, env c09env, depth int, isGo bool) bool
 	// follow: a local closure, a function literal, or a function/method of the package that has a body
 	switch f := c.Fun.(type) {
 	case *ast.FuncLit:
+		if isGo {
+			ast.Inspect(f.Body, func(n ast.Node) bool {
+				switch r := n.(type) {
+				case *ast.FuncLit:
+					return false
+				case *ast.ReturnStmt:
+					w.goRets[r] = true
+				}
+				return true
+			})
+		}
 		w.follow(f.Body, w.bindParams(f.Type, c.Args, env, env), depth+1, isGo)
 		return false
 	case *ast.Ident:
@@ -311,7 +357,7 @@ func (w *c09walker) follow(body ast.Node, env c09env, depth int, isGo bool) {
 }
 
 func c09Handler(x *X, name, dir string, body *ast.BlockStmt, env c09env) {
-	w := &c09walker{x: x, dir: dir, closures: map[string]*ast.FuncLit{}, bufsize: map[string]uint64{}, stack: map[string]bool{}}
+	w := &c09walker{x: x, dir: dir, closures: map[string]*ast.FuncLit{}, bufsize: map[string]uint64{}, stack: map[string]bool{}, goRets: map[ast.Node]bool{}}
 	w.walk(body, env, 0)
 	if len(w.caps) != 1 {
 		x.fail("%s: expected exactly one error channel `make(chan error, N)` on the handler's path, found %d", name, len(w.caps))
